@@ -10,6 +10,7 @@ import sys
 import warnings
 
 root, shims, seed, n, outp = sys.argv[1], sys.argv[2], int(sys.argv[3]), int(sys.argv[4]), sys.argv[5]
+part = sys.argv[6] if len(sys.argv) > 6 else 'all'     # 'main': everything but the implicit poloidal iteration; 'impl': only that
 sys.path.insert(0, root)
 sys.path.insert(0, shims)
 warnings.simplefilter('ignore')
@@ -244,7 +245,7 @@ for cubic in (True, False):
     b_r = BSplines(kn_r, 3, False, cubic)
     b_q = BSplines(make_knots(np.linspace(0, 2 * np.pi, nth + 1), 3, True), 3, True, cubic)
     eta = [b_r.greville, b_q.greville, np.linspace(0, 1, 4), np.linspace(-7, 7, 5)]
-    for explicit in (True, False):
+    for explicit in ((True,) if part == 'main' else (False,) if part == 'impl' else (True, False)):
         for nul in (False, True):
             pa = PoloidalAdvection(eta, [b_q, b_r], consts, nulEdge=nul, explicitTrap=explicit, tol=1e-10)
             phi = Spline2D(b_q, b_r)
